@@ -195,6 +195,9 @@ class Intervals:
         if k == "call":
             callee = self.F.fns.get(t[1])
             if callee is not None:
+                er = enum_fn_range(self.F, callee)
+                if er is not None:
+                    return er
                 rt = callee["locals"][0]
                 r = type_range(rt)
                 if r[1] is not None and r[1] < (1 << 100):
@@ -209,6 +212,45 @@ class Intervals:
         if k == "init" or k == "arg":
             return None
         return None
+
+
+_efr = {}
+
+
+def enum_fn_range(F, callee):
+    """Range of an in-crate function from a fieldless enum to an integer (`PropertyId::as_u8`, a discriminant cast, a
+    `match` table): the function is evaluated on every variant; all results must be constants."""
+    key = (F.hash, callee["path"])
+    if key in _efr:
+        return _efr[key]
+    _efr[key] = None
+    try:
+        if callee.get("argc") != 1 or type_range(callee["locals"][0])[1] is None or len(callee["blocks"]) > 80:
+            return None
+        E = callee["locals"][1].lstrip("&").strip()
+        adt = F.adts.get(E)
+        if not adt or adt.get("kind") != "enum" or any(v.get("fields") for v in adt["variants"]) or not (0 < len(adt["variants"]) <= 64):
+            return None
+        byref = callee["locals"][1].startswith("&")
+        vals = []
+        for v in adt["variants"]:
+            def setup(ex, st, fr, v=v):
+                val = ("agg", E, v["name"], ())
+                if byref:
+                    st.heap[(("EFR", v["name"]), ())] = val
+                    st.heap[(fr.root(1), ())] = ("ref", ("EFR", v["name"]), ())
+                else:
+                    st.heap[(fr.root(1), ())] = val
+            ex = explore.Explorer(F)
+            for q in ex.run(callee["path"], setup=setup):
+                if q.kind != "return" or not (q.ret and q.ret[0] == "c" and isinstance(q.ret[1], int)):
+                    return None
+                vals.append(q.ret[1])
+        if vals:
+            _efr[key] = (min(vals), max(vals))
+    except explore.ExploreError:
+        return None
+    return _efr[key]
 
 
 class PrefixPath:
@@ -657,6 +699,12 @@ def discharge_assert(kind, op, ops, tys, lin, iv, get_facts):
                     return True, "D2m: a + b <= len(..) from path facts, lengths are below 2^56 (A-MEM)"
         if op == "Mul" and a[1] is not None and b[1] is not None and a[1] * b[1] <= hi:
             return True, "D3 interval: %s * %s <= %s::MAX" % (a[1], b[1], ty)
+        if op == "Mul" and hi is not None:
+            # D2i: a constant factor times a value the path facts bound (k * i with i < len(..) <= n)
+            for (kc, other) in ((a, ops[1]), (b, ops[0])):
+                if kc[0] is not None and kc[0] == kc[1] and kc[0] > 0:
+                    if ent(get_facts(), linear.lin_add(lin.of_value(other), linear.const(hi // kc[0]), -1), lin):
+                        return True, "D2i: %d * x with x <= %s::MAX / %d from path facts" % (kc[0], ty, kc[0])
         if op == "Sub":
             q = linear.lin_add(lin.of_value(ops[1]), lin.of_value(ops[0]), -1)      # b - a <= 0
             if ent(get_facts(), q, lin):
@@ -668,6 +716,14 @@ def discharge_assert(kind, op, ops, tys, lin, iv, get_facts):
             bits = hi.bit_length() if lo == 0 else hi.bit_length() + 1
             if b2[1] is not None and b2[1] < bits:
                 return True, "D3 interval: shift amount <= %s < %d bits" % (b2[1], bits)
+            # D2i: the amount is k * x + c with x bounded by the path facts (7 * i, i the index of one of at most 4 bytes)
+            la = lin.of_value(ops[1])
+            if len(la[0]) == 1:
+                (at, kc), = la[0].items()
+                if kc > 0 and (bits - 1 - la[1]) >= 0:
+                    bound = (bits - 1 - la[1]) // kc
+                    if ent(get_facts(), linear.lin_add(linear.atom(at), linear.const(bound), -1), lin):
+                        return True, "D2i: shift amount %d * x + %d with x <= %d from path facts: < %d bits" % (kc, la[1], bound, bits)
         return False, "no bound for %s (%s, %s) in %s" % (op, a, b, ty)
     if kind in ("div_zero", "rem_zero") and ops:
         d = iv.of(ops[0], tys[0] if tys else None)
